@@ -581,7 +581,7 @@ func (s *c18sSys) endTok() string {
 
 // runC18SysScenario executes one `c18 sys` line on real engines. closed: fair closing rounds were
 // appended, so everything must have completed.
-func runC18SysScenario(r *Run, line string, closed bool) {
+func runC18SysScenario(r *Run, line string, closed, wellformed bool) {
 	parts := strings.Split(line, ";")
 	head := strings.Fields(parts[0])
 	cfg := map[string]string{}
@@ -604,6 +604,9 @@ func runC18SysScenario(r *Run, line string, closed bool) {
 	s.out = append(s.out, s.endTok())
 	r.Case(line, strings.Join(s.out, " "))
 	r.Count("sys.scenario")
+	if s.fault != "" && !wellformed {
+		return
+	}
 	if s.fault != "" {
 		r.Failf("C18.sys.fault."+s.fault, line, "an engine of the closed system panicked (%s) although requesters, responders and network are well-behaved", s.fault)
 		return
@@ -645,6 +648,9 @@ func genC18SysScenario(rng *Rng, style int, long bool) (string, bool) {
 			for b == a {
 				b = rng.Intn(n)
 			}
+		}
+		if style == 3 && rng.Chance(12) {
+			b = n + rng.Intn(2) // beyond the remote table: the engine panics (bounds)
 		}
 		off := uint64(rng.Intn(int(bank)))
 		if rng.Chance(30) {
@@ -782,7 +788,7 @@ func genC18SysScenario(rng *Rng, style int, long bool) (string, bool) {
 		add("g %d", a)
 		add("ck %d", a)
 	}
-	return head + " ; " + strings.Join(ops, " ; "), true
+	return head + " ; " + strings.Join(ops, " ; "), style != 3
 }
 
 var c18SysFixed = []string{
@@ -800,21 +806,21 @@ var c18SysFixed = []string{
 func runC18Deep(r *Run, rng *Rng, replay string) {
 	thorough := r.Tier == "thorough"
 	for _, l := range c18SysFixed {
-		runC18SysScenario(r, l, false)
+		runC18SysScenario(r, l, false, true)
 	}
 	nr, nl := 300, 10
 	if thorough {
 		nr, nl = 6000, 200
 	}
 	for i := 0; i < nr; i++ {
-		style := rng.Pick(0, 1, 2, 2)
+		style := rng.Pick(0, 1, 2, 2, 2, 3)
 		l, closed := genC18SysScenario(rng, style, false)
 		r.Count(fmt.Sprintf("sys.style%d", style))
-		runC18SysScenario(r, l, closed)
+		runC18SysScenario(r, l, closed, style != 3)
 	}
 	for i := 0; i < nl; i++ {
 		l, closed := genC18SysScenario(rng, rng.Pick(0, 1, 2, 2), true)
 		r.Count("sys.long")
-		runC18SysScenario(r, l, closed)
+		runC18SysScenario(r, l, closed, true)
 	}
 }
